@@ -56,7 +56,7 @@ func expectFresh(list []string, strict bool) (reject bool, decisive int) {
 
 func main() {
 	run := report.New("C02", "exploration")
-	run.Rule("case = responder list (all lists of length 0..2 over 10 behaviours exhaustively, length 3 sampled/thorough) x client-certificate AKI form{keyIdentifier, keyIdentifier+issuer+serial, issuer+serial} x aia_strict x default_cache_duration{0,1h} x mode{unset,prefer_ocsp,prefer_crl,ocsp_only}; two calls per case (second with every responder made unavailable); oracle = reference walk (first http* responder with an authentic answer decides; none => reject iff strict and >=1 http* responder named) + cache rule for the second call, checked against the responder hit log; non-trivial = some responder was contacted or the strict branch decided; distinct = case descriptor")
+	run.Rule("case = responder list (all lists of length 0..2 over 10 behaviours exhaustively, length 3 sampled/thorough) x client-certificate AKI form{keyIdentifier, keyIdentifier+issuer+serial, issuer+serial; a keyIdentifier matching no certificate where no responder is authentic} x aia_strict x default_cache_duration{0,1h} x mode{unset,prefer_ocsp,prefer_crl,ocsp_only}; two calls per case (second with every responder made unavailable); oracle = reference walk (first http* responder with an authentic answer decides; none => reject iff strict and >=1 http* responder named) + cache rule for the second call, checked against the responder hit log; non-trivial = some responder was contacted or the strict branch decided; distinct = case descriptor")
 	run.Assume("authentic = signed by the issuing CA for this serial, response status successful (the authenticity dimension itself is C05's)")
 	scratch, _ := report.Scratch("C02")
 	sut.QuietStderr(filepath.Join(scratch, "stderr.log"))
@@ -198,6 +198,15 @@ func main() {
 			// authorityKeyIdentifier of the client certificate: keyIdentifier only / OpenSSL's long form /
 			// issuer + serial only
 			akiForm := []string{"", "long", "issuer-serial"}[(li/4)%3]
+			anyAuthentic := false
+			for _, b := range list {
+				anyAuthentic = anyAuthentic || authentic(b)
+			}
+			if !anyAuthentic && li%2 == 1 {
+				// nobody can give an authentic answer anyway; the client certificate's key identifier
+				// matches no certificate of the chain, so not even the issuer is found
+				akiForm = "keyid-mismatch"
+			}
 			chain := w.LeafAKI(serial, nil, aia, akiForm)
 			desc := fmt.Sprintf("mode=%q strict=%v cache=%q responders=[%s] aki=%s", k.Mode, k.Strict, k.Cache, strings.Join(list, ","), map[string]string{"": "keyid"}[akiForm]+akiForm)
 			hitsBefore := countHits(w.OCSP, prefix)
